@@ -167,3 +167,8 @@ TABLES = [
 ]
 
 FUNCTIONS = [R + "LazyVariable.eval", R + "LazyValue.eval", R + "get_function_from_module", R + "LazyCall.eval", E + "capture"]
+
+
+ASSUMPTIONS = ["str.split('.') and getattr are uninterpreted functions (deterministic, otherwise unconstrained); getattr may raise AttributeError", 'inspect.currentframe / f_back / f_locals / f_globals are uninterpreted functions of the frame',
+               'calls of opaque (user / library) callables return unconstrained values and do not touch modelled state',
+               'LazyCall.eval: evaluating the argument objects does not modify this LazyCall (arguments form a tree)']
